@@ -256,7 +256,7 @@ def cases(M):
         zones = gen.hostile()[M.shard::M.nshards]
     else:
         zones = gen.shard_zones(M)
-    per = 6 if thorough else 1
+    per = 3 if thorough else 1
     for zn in zones:
         z = tzdb.Z.get(zn)
         for i, (t, ob, oa, _) in enumerate(z.trans):
